@@ -469,7 +469,12 @@ macro_rules! impl_cache_processor {
                         Ok(())
                     }
                     $item::Delete { key, conflict } => {
-                        self.policy.remove(&key); // deals with metrics updates.
+                        // The policy tracks index hashes only: when the slot is held by another key
+                        // (same index hash, different conflict hash) that key keeps its charge, or a
+                        // stale buffered insert of it would later be admitted as new and overwrite it.
+                        if !self.store.held_by_other(&key, conflict) {
+                            self.policy.remove(&key); // deals with metrics updates.
+                        }
                         #[cfg(transparencies_stretto_verif)]
                         crate::verif::sched::point("item:delete:after_policy_remove");
                         if let Some(sitem) = self.store.try_remove(&key, conflict)? {
